@@ -58,6 +58,64 @@ func den(l gts.Location) []pos {
 	panic(fmt.Sprintf("den: unknown location %T", l))
 }
 
+// embedDen restates Gts.Loc.embedDen (lean/Gts/Lemmas/EmbedExact.lean): what Expand(i, n), n >= 0, has to
+// denote WITHOUT stripping the guest — per interval leaf [s, e): s < i < e -> left part, guest block
+// [i, i+n), right part translated by n; otherwise the insert image (a leaf ending at i stays, one starting
+// at i moves as a whole); concatenated through join / order, read backwards under complement.
+func embedDen(l gts.Location, i, n int) []pos {
+	seg := func(s, e int) []pos {
+		var out []pos
+		if s < i && i < e {
+			for x := s; x < i; x++ {
+				out = append(out, pos{x, false})
+			}
+			for x := i; x < i+n; x++ {
+				out = append(out, pos{x, false})
+			}
+			for x := i + n; x < e+n; x++ {
+				out = append(out, pos{x, false})
+			}
+			return out
+		}
+		for x := s; x < e; x++ {
+			y, _ := insMap(i, n)(x)
+			out = append(out, pos{y, false})
+		}
+		return out
+	}
+	switch v := l.(type) {
+	case gts.Between:
+		return nil
+	case gts.Point:
+		y, _ := insMap(i, n)(int(v))
+		return []pos{{y, false}}
+	case gts.Ranged:
+		return seg(v.Start, v.End)
+	case gts.Ambiguous:
+		return seg(v.Start, v.End)
+	case gts.Joined:
+		var out []pos
+		for _, u := range v {
+			out = append(out, embedDen(u, i, n)...)
+		}
+		return out
+	case gts.Ordered:
+		var out []pos
+		for _, u := range v {
+			out = append(out, embedDen(u, i, n)...)
+		}
+		return out
+	case gts.Complemented:
+		in := embedDen(v.Location, i, n)
+		out := make([]pos, len(in))
+		for k, p := range in {
+			out[len(in)-1-k] = pos{p.x, !p.rev}
+		}
+		return out
+	}
+	panic(fmt.Sprintf("embedDen: unknown location %T", l))
+}
+
 func denStr(d []pos) string {
 	b := strings.Builder{}
 	for i, p := range d {
